@@ -31,7 +31,7 @@ TIERS = {"quick": {"runs": 700, "time_budget": 100, "audit_every": 40},
 
 def generate(seed, tier):
     r = random.Random("%s/mode" % seed)
-    want = [n for n in ("tc", "kw", "n", "b", "tb") if r.random() < 0.5]
+    want = [n for n in ("tc", "kw", "n", "nu", "dt", "b", "tb") if r.random() < 0.5]
     rec = _hist.generate_hist(
         ID, seed,
         gen_kwargs={"ntx": (1, 6), "maxops": 8, "p_iofault": 0.0, "p_raise": 0.0, "p_cancel": 0.03,
